@@ -30,6 +30,13 @@ CLAIMED = {
  "C10": ("property-based testing (proptest: conformant lossless / wide streams + hostile histories) with a re-export round-trip oracle and field-level attribution",
          "For every IPFIX element with header.length >= 16, to_be_bytes must be Ok and equal the header.length input bytes; prediction/attribution as for C09 with the IPFIX-specific findings (variable-length prefix, signed widths, omitted sets). Strict phase (fixed-length lossless kinds incl. enterprise elements) must be completely clean.",
          "Spans from the C02 decomposition; messages with length < 16 are outside 'accepted messages' and only covered by C01.", "DESIGN.md §4 C10"),
+
+ "C11": ("property-based testing (proptest) with a metamorphic oracle: every partition of a packet sequence into calls",
+         "Generated sequences of self-delimiting packets of all four versions with cross-packet template dependencies; for every partition into consecutive calls (all 2^(n-1) up to n = 8, 64 sampled beyond, sequences up to several hundred packets) the concatenated results and the final caches must equal the one-packet-per-call run.",
+         "Equality of results is taken over their complete Debug rendering plus cache contents.", "DESIGN.md §4 C11"),
+ "C12": ("property-based testing (proptest) with a differential oracle against an all-versions twin parser, all 32 allowed-set configurations per case",
+         "Generated chained buffers over {5,7,9,10} and unknown version numbers; for each of the 16 subsets of {5,7,9,10}, with and without extra numbers, every call's result must equal the all-allowing twin's leading elements up to the first filtered version, the caches must equal those of a parser fed only the bytes before it, and an allowed unsupported version must yield an UnknownVersion error.",
+         "The twin starts from a copy of the four public cache maps; element offsets come from the C02 decomposition.", "DESIGN.md §4 C12"),
 }
 NOT_YET = {}
 
